@@ -315,8 +315,14 @@ def analyze_batch(recs, exited, lo, hi, main, specs, cfg, classes, textb, nlines
         inst.ev.append((pos, seqc[0], tok))
 
     by_tid = {}
-    # ---- pass 1: main thread
-    cur, phase, nalloc = None, None, 0
+    # ---- pass 1: the handle side of every instance, executed by its owner: the main thread, or (nested scripts) the thread of the
+    # instance named as its parent, inside that thread's closure.  One state machine per owner thread.
+    class Owner:
+        def __init__(self, iid):
+            self.iid, self.cur, self.phase, self.nalloc = iid, None, None, 0
+    owners = {main: Owner(None)}
+    has_children = {sp.get("parent") for sp in specs if sp.get("parent") is not None}
+    h_vm = set()                                   # mmap / munmap records accounted for as part of somebody's spawn (pass 1)
     heap_live = dict(heap_before)
     stats = {"alloc_mmap": 0, "alloc_munmap": 0, "other_vm": 0}
     window = recs[lo:hi]
@@ -347,113 +353,124 @@ def analyze_batch(recs, exited, lo, hi, main, specs, cfg, classes, textb, nlines
                     if heap_live[ptr][:2] != (size, al):
                         problems.append(("heap", "free of %#x with layout (%d,%d), allocated with %s" % (ptr, size, al, heap_live[ptr][:2])))
                     del heap_live[ptr]
-        if r["pid"] != main:
+        st = owners.get(r["pid"])
+        if st is None:
             continue
         if is_marker(r):
             kind, iid, aux = chr(r["args"][1] & 0xff), r["args"][2], r["args"][3]
             if kind in "SsJRDd" and iid not in insts:
                 problems.append(("probe", "marker for unknown id %d" % iid))
                 continue
+            if kind in "SsJRDd" and insts[iid].spec.get("parent") != st.iid:
+                problems.append(("probe", "handle-side marker %s of id %d on the thread of %s, its script parent is %s" % (
+                    kind, iid, "main" if st.iid is None else "id %d" % st.iid, insts[iid].spec.get("parent"))))
+                continue
+            if kind not in "SsJRDd":
+                continue            # closure / destructor markers of the thread itself: pass 2
             if kind == "S":
-                cur, phase, nalloc = insts[iid], "spawn", 0
-                cur.undo = []
+                st.cur, st.phase, st.nalloc = insts[iid], "spawn", 0
+                st.cur.undo = []
             elif kind == "s":
-                cur.spawn_ret = aux
+                st.cur.spawn_ret = aux
                 # spawn's error path: the releases of tls, stack, closure and shared block touch one resource each and no
                 # other party exists yet, so they commute (Props/C05 `undo_releases_commute`); the model performs them in one
                 # fixed order: hand them to it in that order, at the observed positions.  That each happens exactly once is
                 # still decided by the model (ledger) and by the heap / mapping oracles.
-                if cur.undo:
+                if st.cur.undo:
                     rank = {"hUndoTls": 0, "hUndoStack": 1, "hUndoBox": 2, "hUndoTsm": 3}
-                    cur.undo_order = [t for _, t in cur.undo]
-                    for (pos, _), tok in zip(cur.undo, sorted(cur.undo_order, key=lambda t: rank[t])):
-                        add(cur, pos, tok)
-                cur, phase = None, None
+                    st.cur.undo_order = [t for _, t in st.cur.undo]
+                    for (pos, _), tok in zip(st.cur.undo, sorted(st.cur.undo_order, key=lambda t: rank[t])):
+                        add(st.cur, pos, tok)
+                st.cur, st.phase = None, None
             elif kind == "J":
-                cur, phase = insts[iid], "join"
-                cur.jpos = r["entry"]
-                cur.waits = []
-                cur.freeline = None
-                add(cur, r["entry"], "hJoin")
+                st.cur, st.phase = insts[iid], "join"
+                st.cur.jpos = r["entry"]
+                st.cur.waits = []
+                st.cur.freeline = None
+                add(st.cur, r["entry"], "hJoin")
             elif kind == "R":
-                cur.rval = (aux >> 1) if aux & 1 else None
-                cur.rpos = r["entry"]
-                cur, phase = None, None
+                st.cur.rval = (aux >> 1) if aux & 1 else None
+                st.cur.rpos = r["entry"]
+                st.cur, st.phase = None, None
             elif kind == "D":
-                cur, phase = insts[iid], "drop"
-                cur.jpos = r["entry"]
-                cur.waits = []
-                cur.freeline = None
-                add(cur, r["entry"], "hDrop")
+                st.cur, st.phase = insts[iid], "drop"
+                st.cur.jpos = r["entry"]
+                st.cur.waits = []
+                st.cur.freeline = None
+                add(st.cur, r["entry"], "hDrop")
             elif kind == "d":
-                cur.rpos = r["entry"]
-                cur, phase = None, None
+                st.cur.rpos = r["entry"]
+                st.cur, st.phase = None, None
             continue
-        if cur is None:
-            if r["name"] in ("mmap", "munmap", "mremap", "brk") and not is_heap(r):
-                stats["other_vm"] += 1
+        if st.cur is None:
+            if st.iid is None and r["name"] in ("mmap", "munmap", "mremap", "brk") and not is_heap(r):
+                stats["other_vm"] += 1         # (a spawned owner's own system calls outside a spawn / join / drop: pass 2)
             continue
-        if phase == "spawn":
+        if st.phase == "spawn":
             if is_heap(r):
                 ptr, size, al, op = r["args"][1], r["args"][2], r["args"][3] >> 1, r["args"][3] & 1
                 if op == 0:
-                    nalloc += 1
-                    if nalloc == 1:
-                        cur.tsm = (ptr, size, al, r["entry"])
-                        word_of[ptr + 4] = cur
-                        add(cur, r["entry"], "hAllocTsm")
-                    elif nalloc == 2:
-                        cur.box = (ptr, size, al, r["entry"])
-                        add(cur, r["entry"], "hBox")
-                    elif nalloc == 3 and cur.stack is not None:
-                        cur.tls = (ptr, size, al, r["entry"])
-                        add(cur, r["entry"], "hAllocTls")
+                    st.nalloc += 1
+                    if st.nalloc == 1:
+                        st.cur.tsm = (ptr, size, al, r["entry"])
+                        word_of[ptr + 4] = st.cur
+                        add(st.cur, r["entry"], "hAllocTsm")
+                    elif st.nalloc == 2:
+                        st.cur.box = (ptr, size, al, r["entry"])
+                        add(st.cur, r["entry"], "hBox")
+                    elif st.nalloc == 3 and st.cur.stack is not None:
+                        st.cur.tls = (ptr, size, al, r["entry"])
+                        add(st.cur, r["entry"], "hAllocTls")
                     else:
-                        problems.append(("model-map", "unexpected allocation #%d inside spawn of %d" % (nalloc, cur.id)))
+                        problems.append(("model-map", "unexpected allocation #%d inside spawn of %d" % (st.nalloc, st.cur.id)))
                 else:
-                    if cur.tls and ptr == cur.tls[0]:
-                        cur.undo.append((r["entry"], "hUndoTls"))
-                    elif cur.box and ptr == cur.box[0]:
-                        cur.undo.append((r["entry"], "hUndoBox"))
-                    elif cur.tsm and ptr == cur.tsm[0]:
-                        cur.undo.append((r["entry"], "hUndoTsm"))
+                    if st.cur.tls and ptr == st.cur.tls[0]:
+                        st.cur.undo.append((r["entry"], "hUndoTls"))
+                    elif st.cur.box and ptr == st.cur.box[0]:
+                        st.cur.undo.append((r["entry"], "hUndoBox"))
+                    elif st.cur.tsm and ptr == st.cur.tsm[0]:
+                        st.cur.undo.append((r["entry"], "hUndoTsm"))
                     else:
-                        problems.append(("model-map", "unexpected free inside spawn of %d" % cur.id))
+                        problems.append(("model-map", "unexpected free inside spawn of %d" % st.cur.id))
             elif r["name"] == "mmap":
-                if nalloc == 2 and cur.stack is None and not cur.mmap_fail and len(r["args"]) >= 2 and r["args"][1] == STACK_LEN:
+                h_vm.add(r["entry"])
+                if st.nalloc == 2 and st.cur.stack is None and not st.cur.mmap_fail and len(r["args"]) >= 2 and r["args"][1] == STACK_LEN:
                     if r["ret"] is not None and r["err"] is None:
-                        cur.stack = (r["ret"], r["args"][1], r["entry"])
-                        stack_ranges[r["ret"]] = cur
-                        add(cur, r["entry"], "hMmap=1")
+                        st.cur.stack = (r["ret"], r["args"][1], r["entry"])
+                        stack_ranges[r["ret"]] = st.cur
+                        add(st.cur, r["entry"], "hMmap=1")
                     else:
-                        cur.mmap_fail = True
-                        add(cur, r["entry"], "hMmap=0")
+                        st.cur.mmap_fail = True
+                        add(st.cur, r["entry"], "hMmap=0")
                 else:
                     stats["alloc_mmap"] += 1
             elif r["name"] == "munmap":
-                if cur.stack and r["args"][:2] == [cur.stack[0], cur.stack[1]]:
-                    cur.stack_unmapped_by = ("main", r["entry"])
-                    cur.undo.append((r["entry"], "hUndoStack"))
+                if st.cur.stack and r["args"][:2] == [st.cur.stack[0], st.cur.stack[1]]:
+                    st.cur.stack_unmapped_by = (r["pid"], r["entry"])
+                    h_vm.add(r["entry"])
+                    st.cur.undo.append((r["entry"], "hUndoStack"))
                 else:
                     stats["alloc_munmap"] += 1
             elif r["name"] in ("clone", "clone3"):
                 if r["err"] is None and r["ret"] is not None and r["ret"] > 0:
-                    cur.tid = r["ret"]
-                    by_tid[cur.tid] = cur
-                    cur.clone_args = r["args"]
-                    add(cur, r["entry"], "hClone=1")
+                    st.cur.tid = r["ret"]
+                    by_tid[st.cur.tid] = st.cur
+                    if st.cur.id in has_children:
+                        owners[st.cur.tid] = Owner(st.cur.id)
+                    st.cur.clone_args = r["args"]
+                    add(st.cur, r["entry"], "hClone=1")
                 else:
-                    cur.clone_fail = True
-                    add(cur, r["entry"], "hClone=0")
+                    st.cur.clone_fail = True
+                    add(st.cur, r["entry"], "hClone=0")
             elif r["name"] in ("mremap", "brk"):
                 stats["other_vm"] += 1
-        elif phase in ("join", "drop"):
+        elif st.phase in ("join", "drop"):
             if is_heap(r):
                 ptr, op = r["args"][1], r["args"][3] & 1
-                if op == 1 and cur.tsm and ptr == cur.tsm[0]:
-                    cur.freeline = r["entry"]
-            elif r["name"] == "futex" and r["args"][0] == futex_word(cur):
-                cur.waits.append(r)
+                if op == 1 and st.cur.tsm and ptr == st.cur.tsm[0]:
+                    st.cur.freeline = r["entry"]
+            elif r["name"] == "futex" and r["args"][0] == futex_word(st.cur):
+                st.cur.waits.append(r)
             elif r["name"] in ("mmap", "munmap", "mremap", "brk"):
                 stats["other_vm"] += 1
     # ---- pass 2: spawned threads
@@ -476,6 +493,8 @@ def analyze_batch(recs, exited, lo, hi, main, specs, cfg, classes, textb, nlines
                 problems.append(("stack-use-after-unmap", "thread %d of id %d issued %s after unmapping its own stack" % (inst.tid, inst.id, r["name"])))
             if is_marker(r):
                 kind, iid, aux = chr(r["args"][1] & 0xff), r["args"][2], r["args"][3]
+                if kind in "SsJRDd":
+                    continue            # this thread as the handle side of its script children: pass 1
                 if iid != inst.id:
                     problems.append(("runs-once", "thread %d created for id %d ran the closure of id %d" % (inst.tid, inst.id, iid)))
                 if kind == "B":
@@ -512,16 +531,30 @@ def analyze_batch(recs, exited, lo, hi, main, specs, cfg, classes, textb, nlines
                     inst.t_munmap = r["entry"]
                     inst.t_all.append((r["entry"], "tMunmap"))
                     after_munmap = True
+                elif r["entry"] in h_vm:
+                    pass                           # the error path of a spawn this thread made itself (pass 1)
                 elif r["args"][0] in stack_ranges:
                     problems.append(("stack", "thread of id %d unmapped the stack of id %d" % (inst.id, stack_ranges[r["args"][0]].id)))
                 else:
                     stats["other_vm"] += 1         # the allocator gave memory back while a spawned thread held its lock
+            elif r["name"] == "mmap" and r["entry"] in h_vm:
+                pass                               # inside a spawn this thread made itself: a child's stack / the allocator (counted there)
             elif r["name"] in ("mmap", "mremap", "brk"):
                 stats["other_vm"] += 1
             elif r["name"] == "exit":
                 inst.t_exit = r["entry"]
                 inst.t_all.append((r["entry"], "tExit"))
         inst.nbegin = nb
+        # set_tid_address acts on the CALLING thread: a spawned thread may reset its clear-tid address only on its way to freeing its
+        # own join state (it lost the hand-over).  Any other reset — made on behalf of another thread's join state, say — and the
+        # kernel will never clear and wake this thread's exit word: whoever joins or drops its handle waits for ever
+        own_frees = [p_ for p_, t_ in inst.t_all if t_ == "tFreeTsm"]
+        for p_, t_ in inst.t_all:
+            if t_ == "tSetTid" and not any(q_ > p_ for q_ in own_frees) and (inst.t_exit is not None or hi < len(recs)):
+                problems.append(("clear-tid-wiped", "the thread of id %d (tid %d) reset its own clear-tid address (set_tid_address(0), trace line %d) "
+                                 "without freeing its own join state afterwards%s: its exit will not clear / wake its exit word" % (
+                                     inst.id, inst.tid, p_, " — it did so as the handle side of its script children" if inst.id in has_children else "")))
+                break
         if inst.tid is not None:
             inst.t_exited = exited.get(inst.tid)
             if faults and inst.tid in faults:
@@ -667,10 +700,13 @@ def model_line(cfg, insts, base):
         for pos, seq, tok in inst.ev:
             evs.append((pos, seq, base + inst.id, tok))
     evs.sort()
-    return "thr %d %d %d %d %d %d %d 1 %d %d %d %d : %s" % (
+    # the topology: who executes the handle side of whom (nested scripts); replayed by `stepN`, which lets a handle-side event of i
+    # happen only while its owner's thread is inside its closure
+    owners = ["%d own=%d" % (base + inst.id, base + inst.spec["parent"]) for inst in insts.values() if inst.spec.get("parent") is not None]
+    return "thrn %d %d %d %d %d %d %d 1 %d %d %d %d %d %d : %s" % (
         cfg["checkClone"], cfg["mmapCleanup"], cfg["initWord"], cfg["joinExpect"], cfg["dropExpect"], cfg["setTidRet"], cfg["setTidPanic"],
-        1, cfg["dropValH"], cfg["dropValT"], cfg["recheck"],
-        " ; ".join("%d %s" % (i, t) for _, _, i, t in evs)), len(evs)
+        1, cfg["dropValH"], cfg["dropValT"], cfg["recheck"], cfg.get("hTidDrop", 0), cfg.get("hTidDealloc", 0),
+        " ; ".join(owners + ["%d %s" % (i, t) for _, _, i, t in evs])), len(evs)
 
 
 def expected_digest(cls, token, edigest):
@@ -715,6 +751,11 @@ def judge_batch(bno, specs, insts, problems, stats, heap_before, heap_live, tb, 
         inst = insts[sp["id"]]
         iid = sp["id"]
         st = tb["spawn"].get(iid)
+        par = sp.get("parent")
+        if par is not None and par in insts and insts[par].tid is None:
+            if st is not None or inst.tsm is not None:
+                bad.append(("runs-once", "id %d was spawned although its script parent %d was never created" % (iid, par)))
+            continue                                   # the thread that would have spawned it does not exist (its own spawn failed)
         failed_call = inst.mmap_fail or inst.clone_fail
         if inst.hung:
             bad.append(("hang", "%s of id %d did not return within the watchdog (%s); thread created: %s; closure: %s" % (
@@ -875,7 +916,8 @@ def script_of(batches):
     for specs in batches:
         for sp in specs:
             verb = ("panic_" + sp["site"] if sp.get("site") else "panic") if sp["panic"] else "ret"
-            out.append("t %d %s %d %d %s %d" % (sp["id"], verb, sp["d"], sp["class"], sp["action"], sp["d2"]))
+            head = "t" if sp.get("parent") is None else "c %d" % sp["parent"]
+            out.append("%s %d %s %d %d %s %d" % (head, sp["id"], verb, sp["d"], sp["class"], sp["action"], sp["d2"]))
         out.append("go")
     return "\n".join(out) + "\n"
 
@@ -926,7 +968,12 @@ def cfg_of(table):
             "joinExpect": d["joinExpect"] if d["joinExpect"] is not None else 4294967295,
             "dropExpect": d["dropExpect"] if d["dropExpect"] is not None else 4294967295,
             "setTidRet": int(bool(d["setTidRet"])), "setTidPanic": int(bool(d["setTidPanic"])),
-            "dropValH": int(bool(d["dropValH"])), "dropValT": int(bool(d["dropValT"])), "recheck": int(bool(d["recheck"]))}
+            "dropValH": int(bool(d["dropValH"])), "dropValT": int(bool(d["dropValT"])), "recheck": int(bool(d["recheck"])),
+            # topology parameters (Model/Thread Part 3, Props/C05 `genTopo`): does handle-side code — which runs on the thread that
+            # owns the handle, possibly a spawned one — issue set_tid_address(0)?  Read off the same paths, the same way.
+            "hTidDrop": int(any("set_tid_0" in p for p in table["paths"].get("drop", []) if "cas_lost" in p)),
+            "hTidDealloc": int(any("set_tid_0" in p for p in table["paths"].get("join", [])) or
+                               any("set_tid_0" in p for p in table["paths"].get("spawn", []) if "ret_err" in p))}
 
 
 def model_verdicts(ctx, items):
@@ -1053,6 +1100,72 @@ def panic_site_sweep(r, rounds):
     return jobs
 
 
+NESTED_CLASSES = [0, 1, 2, 3, 4, 5, 6, 10, 12]     # a child's value may be dropped by its parent, a spawned thread: no panicking destructors there
+
+
+def gen_nested_batch(r, small=False):
+    """thread TOPOLOGY: threads that are themselves the handle side of other threads.  1..3 spawners started by main, each spawning
+    1..4 children inside its closure and joining / dropping-at-once / dropping-later each of them (so that the drop meets a running, an
+    exiting or a long gone child), then returning or panicking, and being joined or dropped by main in turn; some children spawn a
+    third level; ordinary threads of main in between.  `small`: few threads, no big results (fault runs: no allocator growth)."""
+    ids = r.shuffle(list(range(64)))
+    k = [0]
+
+    def nid():
+        k[0] += 1
+        return ids[k[0] - 1]
+
+    def leaf(parent, depth):
+        pan = r.chance(1, 4)
+        style = r.below(4)
+        d, d2 = r.choice(DELAYS), r.choice(DELAYS)
+        act = r.choice(["join", "join", "drop", "drop", "dropnow"])
+        if style == 0:
+            d, d2 = 0, r.choice([300, 1000, 3000])        # long gone when the parent gets to it
+        elif style == 1:
+            d, d2 = r.choice([1000, 3000]), 0              # still running
+        elif style == 2:
+            d2 = d                                          # the parent's join / drop races the child's end
+        cls = r.choice([0, 1, 2, 4, 12] if small else NESTED_CLASSES)
+        return {"id": nid(), "panic": pan, "site": (r.choice(["", "", "m"]) if pan else ""), "d": d, "class": cls, "action": act, "d2": d2,
+                "parent": parent, "depth": depth}
+    specs = []
+    for _ in range(1 if small else r.range(1, 3)):
+        pan = r.chance(1, 3)
+        top = {"id": nid(), "panic": pan, "site": (r.choice(["", "m"]) if pan else ""), "d": r.choice([0, 0, 100, 1000]),
+               "class": r.choice([0, 2, 4, 12] if small else [0, 2, 3, 5, 12, 13, 14]), "action": r.choice(["join", "join", "drop", "dropnow"]),
+               "d2": r.choice(DELAYS + [6000]), "parent": None, "depth": 0}
+        specs.append(top)
+        for _ in range(r.range(2, 3) if small else r.range(1, 4)):
+            c = leaf(top["id"], 1)
+            specs.append(c)
+            if r.chance(1, 4):
+                for _ in range(r.range(1, 2)):
+                    specs.append(leaf(c["id"], 2))
+        if not small and r.chance(1, 2):
+            specs.append({"id": nid(), "panic": r.chance(1, 4), "site": "", "d": r.choice(DELAYS), "class": r.below(13), "action": r.choice(["join", "drop", "dropnow"]),
+                          "d2": r.choice(DELAYS), "parent": None, "depth": 0})
+    # script order = spawn order of each owner: parents first, then level by level
+    specs.sort(key=lambda sp: sp["depth"])
+    return specs
+
+
+def nested_sweep(r, rounds):
+    """fixed two-level shapes, one per way a spawned thread can be the handle side of a finished / running child — joins it, drops its
+    handle after it finished (the handle loses the hand-over), drops it at once (wins), spawns and forgets nothing — followed by main
+    joining or dropping the spawner before / after it finished"""
+    out = []
+    for _ in range(rounds):
+        for cact, cd, cd2 in (("join", 0, 0), ("join", 1000, 0), ("drop", 0, 1000), ("drop", 0, 3000), ("drop", 1000, 0), ("dropnow", 1000, 0), ("dropnow", 0, 0)):
+            for pact, pd2 in (("join", 0), ("join", 6000), ("drop", 8000), ("dropnow", 0)):
+                ids = r.shuffle(list(range(64)))
+                ppan = r.chance(1, 4)
+                out.append([{"id": ids[0], "panic": ppan, "site": "", "d": 0, "class": r.choice([0, 2, 5, 12]), "action": pact, "d2": pd2, "parent": None},
+                            {"id": ids[1], "panic": r.chance(1, 4), "site": "", "d": cd, "class": r.choice([0, 2, 3, 5, 12]), "action": cact, "d2": cd2, "parent": ids[0]},
+                            {"id": ids[2], "panic": False, "site": "", "d": r.choice([0, 300]), "class": 2, "action": r.choice(["join", "drop"]), "d2": 300, "parent": ids[0]}])
+    return out
+
+
 def run_scenarios(ctx, exe, cfg, nproc, batches_per_proc, nmax, label, jobs=None):
     """runs nproc probe processes of batches_per_proc batches each; returns list of (result item, script)"""
     r = ctx.rng
@@ -1098,7 +1211,17 @@ def account(ctx, items, exe, pid_kinds=None, inject=None):
                 ctx.hist("spawn_error_release_order_observed", ">".join(t[5:] for t in inst.undo_order))
             if sp["action"] != "join" and inst.hwon is not None and inst.tid is not None:
                 ctx.hist("flag_cas_winner", "handle" if inst.hwon else "thread")
-            ctx.count((sp["panic"], sp.get("site", ""), sp["class"], sp["action"], inst.path, inst.mmap_fail, inst.clone_fail, getattr(inst, "dpanic", False)))
+            depth, q = 0, sp
+            while q.get("parent") is not None and depth < 8:
+                depth, q = depth + 1, it["insts"][q["parent"]].spec
+            nkids = sum(1 for x in it["specs"] if x.get("parent") == sp["id"])
+            ctx.count((sp["panic"], sp.get("site", ""), sp["class"], sp["action"], inst.path, inst.mmap_fail, inst.clone_fail, getattr(inst, "dpanic", False),
+                       depth, min(nkids, 2)))
+            if inst.tid is not None or inst.mmap_fail or inst.clone_fail:
+                ctx.hist("topology", "depth %d, %s" % (depth, "spawns threads itself" if nkids else "leaf"))
+                if depth:
+                    ctx.hist("handle_side_on_a_spawned_thread", "%s%s" % (inst.path or ("spawn failed" if (inst.mmap_fail or inst.clone_fail) else sp["action"]),
+                                                                          "" if not sp["panic"] else ", child panicked"))
             if sp["panic"] and inst.tid is not None:
                 ctx.hist("panic_sites", "%s, %s" % (SITES[sp.get("site", "")].split(" (")[0], "joined" if sp["action"] == "join" else "dropped"))
             if sp["class"] in BOMBS and inst.tid is not None and not sp["panic"]:
@@ -1137,8 +1260,8 @@ def account(ctx, items, exe, pid_kinds=None, inject=None):
     return nbad
 
 
-C05_KINDS = {"crash", "hang", "spawn-failure-not-error", "runs-once", "spawn", "join", "join-value", "join-visibility", "join-early", "layout", "value-drop"}
-C06_KINDS = {"crash", "double-free", "use-after-free", "stack-use-after-unmap", "stack", "stack-leak", "tid-not-reset", "heap-baseline", "thread-leak", "vm-baseline",
+C05_KINDS = {"clear-tid-wiped", "crash", "hang", "spawn-failure-not-error", "runs-once", "spawn", "join", "join-value", "join-visibility", "join-early", "layout", "value-drop"}
+C06_KINDS = {"clear-tid-wiped", "crash", "double-free", "use-after-free", "stack-use-after-unmap", "stack", "stack-leak", "tid-not-reset", "heap-baseline", "thread-leak", "vm-baseline",
              "free-before-exit", "value-drop"}
 
 
@@ -1177,6 +1300,24 @@ def run_faults(ctx, exe, cfg, nscripts, nthreads):
         for k in mm:
             jobs.append((specs, script, "mmap:error=ENOMEM:when=%d" % k))
         for k in cl:
+            jobs.append((specs, script, "clone:error=EAGAIN:when=%d" % k))
+
+    # faults on the spawns a SPAWNED thread makes: strace counts per thread, and main (2 start-up mmaps + 1 stack, 1 clone) has no 4th
+    # mmap / 2nd clone, so `when=k` for larger k hits only the k-th spawn of the spawner (its mmaps are its children's stacks: no big
+    # results, the allocator does not grow)
+    for _ in range(max(2, nscripts // 2)):
+        specs = [sp for sp in gen_nested_batch(r, small=True)]
+        top = specs[0]
+        have = sum(1 for sp in specs if sp.get("parent") == top["id"])
+        ids = [i for i in range(64) if i not in {sp["id"] for sp in specs}]
+        for j in range(5 - have):
+            specs.append({"id": ids[j], "panic": r.chance(1, 4), "site": "", "d": r.choice(DELAYS), "class": r.choice([0, 1, 2, 4, 12]),
+                          "action": r.choice(["join", "drop", "dropnow"]), "d2": r.choice(DELAYS), "parent": top["id"], "depth": 1})
+        specs.sort(key=lambda sp: sp["depth"])
+        script = script_of([specs])
+        for k in (4, 5):
+            jobs.append((specs, script, "mmap:error=ENOMEM:when=%d" % k))
+        for k in (2, 3, 5):
             jobs.append((specs, script, "clone:error=EAGAIN:when=%d" % k))
 
     # a FUTEX_WAIT made to return 0 although nobody woke the word (the futex contract allows it): join's first wait
@@ -1266,6 +1407,12 @@ ASSUMPTIONS = [
     "(Model/Thread `tDropPanic`; proved: nothing has been released at that point, so the panic handler's releases are the only ones). "
     "A destructor that panics on the HANDLE's thread (Drop for JoinHandle after a lost CAS, or the caller dropping what join returned) is the "
     "caller's panic, not the runtime's: it ends that thread (the process, on the main thread) before the shared block is freed; observed, not modelled",
+    "thread topology: the handle side of an instance is attributed to the thread that executes it (Model/Thread Part 3 `stepN`: a handle-side step of "
+    "a nested instance needs its owner's thread inside its closure; replayed for every nested history); for the source as it is no handle-side code "
+    "issues set_tid_address (gen_handle_side_never_resets_tid), so nested families reduce to flat ones (reachableN_reachable). A closure is one "
+    "model step: a spawner that panics while it still owns handles (they are never dropped: no unwinding) is the caller leaking handles, not "
+    "exercised — scripted spawners panic only after they have joined / dropped every child; children's results have no panicking destructor "
+    "(it would run on the parent, a spawned thread, and end it)",
     "a thread that panics inside an argument of eprintln! / println! / dbg! dies holding that print lock (nothing unwinds; observation, outside "
     "C05/C06): later prints to the stream from any thread would block, so the scenarios carry at most one such thread per lock per probe process "
     "and the probe itself never prints through the library",
@@ -1275,7 +1422,7 @@ ASSUMPTIONS = [
 
 
 GOOD_CFG = {"checkClone": 1, "mmapCleanup": 1, "initWord": 1, "joinExpect": 1, "dropExpect": 1, "setTidRet": 1, "setTidPanic": 1,
-            "dropValH": 1, "dropValT": 1, "recheck": 1}
+            "dropValH": 1, "dropValT": 1, "recheck": 1, "hTidDrop": 0, "hTidDealloc": 0}
 
 
 def calibrate(exe, cfg0, want):
@@ -1442,7 +1589,9 @@ def run(ctx, which="C05"):
                 "handle joined | dropped after d' us | dropped at once), run on the real tiny-std threads under "
                 "strace -f, plus fault runs (every stack-mmap and every clone position of a script made to fail); "
                 "distinct_nontrivial = distinct (panic, class, handle action, wait path taken [fast load | EAGAIN | parked | handle won the CAS], "
-                "injected failure, destructor of the unread result panicked on the thread, panic site) combinations observed")
+                "injected failure, destructor of the unread result panicked on the thread, panic site, depth in the spawn tree, spawns threads itself) "
+                "combinations observed; thread TOPOLOGY is a dimension: nested scripts in which spawned threads spawn, join, drop-early and drop-late "
+                "threads themselves (depth 2 and 3), with faults on their own spawns, then return or panic and are joined or dropped in turn")
     table, cfg = setup(ctx)
     ok = C.lean_prove(ctx, "TinyVerif.Props." + which, drivers=["drv_c05"])
     exes = {}
@@ -1481,6 +1630,12 @@ def run(ctx, which="C05"):
     pitems = run_scenarios(ctx, exes["dyn"], cfg, 0, 0, 0, "panic-site-sweep", jobs=panic_site_sweep(ctx.rng, 1 if quick else 6))
     ctx.extra["panic_site_sweep_batches"] = len(pitems)
     items += pitems
+    # thread topology: spawned threads that spawn, join and drop threads themselves (depth 2 and 3)
+    nb = [gen_nested_batch(ctx.rng) for _ in range(60 if quick else 700)] + nested_sweep(ctx.rng, 1 if quick else 6)
+    njobs = [one_per_print_lock(nb[i:i + 6]) for i in range(0, len(nb), 6)]
+    nitems = run_scenarios(ctx, exes["dyn"], cfg, 0, 0, 0, "nested", jobs=njobs)
+    ctx.extra["nested_batches"] = len(nitems)
+    items += nitems
     ctx.extra["scenario_s"] = round(time.time() - t, 1)
     nbad = account(ctx, items, exes["dyn"], pid_kinds=kinds)
     # fault runs
@@ -1523,9 +1678,12 @@ def batches_of_script(script):
         if w[0] == "go":
             out.append(cur)
             cur = []
-        elif w[0] == "t":
+        elif w[0] in ("t", "c"):
+            par = None
+            if w[0] == "c":
+                par, w = int(w[1]), [w[0]] + w[2:]
             cur.append({"id": int(w[1]), "panic": w[2].startswith("panic"), "site": w[2][6:] if w[2].startswith("panic_") else "",
-                        "d": int(w[3]), "class": int(w[4]), "action": w[5], "d2": int(w[6])})
+                        "d": int(w[3]), "class": int(w[4]), "action": w[5], "d2": int(w[6]), "parent": par})
     return out
 
 
